@@ -187,7 +187,8 @@ def check_case(ctx, case):
             ctx.violation('not-locally-optimal', 're-optimising near the reported parameters %r lowers the objective '
                           'from %r to %r' % (cof, obj, best), case,
                           signature=dict(kind='not-locally-optimal', sum_model='+' in case['model'],
-                                         parameter_at_lower_bound=at_lower))
+                                         parameter_at_lower_bound=at_lower,
+                                         fit_sigma='array' if isinstance(case['fit_sigma'], list) else str(case['fit_sigma'])))
 
 
 def run(ctx):
